@@ -19,6 +19,7 @@ package main
 
 import (
 	"fmt"
+	"os"
 	"strings"
 
 	"github.com/semihalev/twig"
@@ -509,9 +510,14 @@ func main() {
 			if t.Thorough() {
 				maxLen = 6
 			}
+			if os.Getenv("C14_ONLY") == "rep" {
+				runRep(t)
+				return
+			}
 			runSmall(t, 0, 4)
 			runPad(t)
 			runTagSeq(t, 5)
+			runRep(t)
 			runSmall(t, 5, maxLen)
 		},
 		Extra: func(tier string, cov map[string]interface{}) {
@@ -519,6 +525,7 @@ func main() {
 			cov["corpus_templates"] = len(corpus)
 			cov["comment_templates"] = len(commentBases)
 			cov["tag_sequence_pieces"] = len(tagPieces)
+			repCoverage(tier, cov)
 		},
 	})
 }
